@@ -139,9 +139,12 @@ func runSchedule(t *testing.T, calls []BCallD, n int, nsteps int, variant []stri
 					s.Cxl = true // a trial that ends because its execution was cancelled still records its outcome
 				}
 			case c < 18:
-				s = cStep{K: "Tick", Dt: Pick(rng, []int64{1, delay - 1, delay, delay + 1, 1 + rng.I64n(delay+2), int64(cb.RemainingDelay()), int64(cb.RemainingDelay()) - 1})}
+				s = cStep{K: "Tick", Dt: Pick(rng, []int64{1, delay - 1, delay, delay + 1, 1 + rng.I64n(min(delay, 1_000_000_000_000)+2), int64(cb.RemainingDelay()), int64(cb.RemainingDelay()) - 1})}
 				if s.Dt < 0 {
 					s.Dt = 0
+				}
+				if s.Dt > 1_000_000_000_000 { // "open for good": the clock cannot be advanced by centuries
+					s.Dt = 3_600_000_000_000
 				}
 			case c < 19:
 				s = cStep{K: "Manual", Tgt: rng.Intn(3)}
@@ -232,7 +235,7 @@ func TestDrive_C04(t *testing.T) {
 	}
 	for it := 0; it < n; it++ {
 		var calls []BCallD
-		delay := Pick(rng, []int64{0, 1, 10_000_000, 1_000_000_000})
+		delay := Pick(rng, []int64{0, 1, 10_000_000, 1_000_000_000, 1_000_000_000, 1<<63 - 1})
 		calls = append(calls, BCallD{K: "Delay", A: delay})
 		switch rng.Intn(4) {
 		case 0:
